@@ -6,6 +6,13 @@ import MdkVerif.GeneratedLeak
   tools/gen_leak.py on every run, so the `decide` theorems below are re-checked against what the
   code says NOW.  The classification of an argument expression into a class is the translator's
   (trusted, listed in evidence/C14.json); everything after that is proved here.
+
+  History: on mdk @6826ab1 the full statements were false (`ensure_hydrated` logged an unparsable
+  snapshot name verbatim; `GroupResult`, `UpdateGroupResult`, `NostrGroupConfigData`,
+  `NostrGroupDataUpdate`, `WelcomePreview`, `JoinedGroupResult` derived `Debug` over ids / keys) and this
+  file carried `_partial` theorems with witnesses.  Both were repaired in /repo (4eb675f, 5bf1e8a); the
+  model follows the repaired code, the full theorems replace the partial ones, and the old witnesses are
+  regression traces in corpus/C14 that the oracle replays.
 -/
 namespace MdkVerif.Props.C14
 open MdkVerif MdkVerif.Leak MdkVerif.GeneratedLeak List
@@ -78,6 +85,18 @@ theorem render_clean (T : Tables) (hT : T.buildersClean = true) (tbl : List Site
     exact render_clean_list T hT s.args r.args (hclean s (findSite_mem hs)) hem
   · simp at hem
 
+/-- the hypotheses of `render_clean` are satisfiable by a non-trivial table and record … -/
+example : ∃ (T : Tables) (tbl : List Site) (r : Record),
+    T.buildersClean = true ∧ (∀ s ∈ tbl, s.clean = true) ∧ emittedBy T tbl r = true ∧ r.render ≠ [] :=
+  ⟨⟨[], [], [⟨1, .errCtor, [.number]⟩], []⟩, [⟨0, .log, [.eventId, .text]⟩],
+   ⟨0, [.leaf .eventId [.pub 7], .built 1 [.leaf .number [.pub 3]]]⟩, by decide⟩
+
+/-- … and the semantics is not vacuous the other way: a table WITH a sensitive argument admits an
+    emitted record that carries a secret atom (this is what the theorem excludes for clean tables) -/
+example : ∃ (T : Tables) (tbl : List Site) (r : Record),
+    emittedBy T tbl r = true ∧ allPub r.render = false :=
+  ⟨⟨[], [], [], []⟩, [⟨0, .log, [.snapshotName]⟩], ⟨0, [.leaf .snapshotName [.pub 0, .sec .mlsGroupId 1]]⟩, by decide⟩
+
 /-- a redacting wrapper renders nothing of what it holds (`Secret(***)`, `[REDACTED]`) -/
 theorem wrapper_clean (v : Val) : (Val.wrapped v).render = [] := rfl
 
@@ -99,33 +118,17 @@ theorem errorCtors_clean : ∀ s ∈ errorCtors, s.clean = true := by
 
 theorem builders_clean : tables.buildersClean = true := by decide +kernel
 
-/-- the full statement for the tracing sites: every call site renders only clean classes -/
-def C14_full : Prop := ∀ s ∈ logSites, s.clean = true
-
-/-- what holds of the current code: every tracing call site renders only clean classes, EXCEPT
-    arguments that are a stored snapshot name (`ensure_hydrated` logs an unparsable name verbatim) -/
-theorem sites_clean : ∀ s ∈ logSites, s.cleanExcept .snapshotName = true := by
-  have h : logSites.all (Site.cleanExcept .snapshotName) = true := by decide +kernel
+/-- **sites_clean.**  Every tracing call site of the five crates renders only clean classes. -/
+theorem sites_clean : ∀ s ∈ logSites, s.clean = true := by
+  have h : logSites.all Site.clean = true := by decide +kernel
   simpa [List.all_eq_true] using h
 
-/-- the exception is real: some tracing site does render a snapshot name -/
-theorem C14_witness : ¬ C14_full := by
-  intro h
-  have hall : logSites.all Site.clean = true := List.all_eq_true.mpr h
-  revert hall; decide +kernel
-
-/-- and it is the only kind of exception: a tracing site that renders no snapshot name is clean -/
-theorem sites_clean_partial : ∀ s ∈ logSites, s.args.contains .snapshotName = false → s.clean = true := by
-  have h : logSites.all (fun s => s.args.contains .snapshotName || s.clean) = true := by decide +kernel
-  intro s hs hn
-  have := (List.all_eq_true.mp h) s hs
-  rw [hn] at this
-  simpa using this
-
-example : (logSites.any (fun s => !s.args.contains .snapshotName && !s.args.isEmpty)) = true := by decide +kernel
+/-- the table is not trivially clean: some tracing sites do interpolate arguments -/
+example : (logSites.any (fun s => !s.args.isEmpty)) = true := by decide +kernel
 
 /-! ### 3. `redaction_sound` — the manual `Debug` / `Display` impls (EpochSnapshot, EpochSnapshotManager,
-    MessageProcessingResult, EncryptionConfig, Secret<T>, the storage error and state enums, the
+    MessageProcessingResult, GroupResult, UpdateGroupResult, NostrGroupConfigData, NostrGroupDataUpdate,
+    WelcomePreview, JoinedGroupResult, EncryptionConfig, Secret<T>, the storage error and state enums, the
     memory-storage MLS maps) render only clean classes: their sensitive fields are absent or replaced
     by a literal. -/
 
@@ -136,100 +139,37 @@ theorem fmtImpls_clean : ∀ s ∈ fmtImpls, s.clean = true := by
 theorem redaction_sound (r : Record) (hem : emittedBy tables fmtImpls r = true) : allPub r.render = true :=
   render_clean tables builders_clean fmtImpls r fmtImpls_clean hem
 
-/-- the full statement for result / configuration types: none of them has a derived `Debug` that prints a
-    sensitive field -/
-def C14_results_full : Prop := ∀ s ∈ derivedResultDebug, s.clean = true
+/-- **results_redact.**  No result / configuration type of the crates (`…Result`, `…Config…`) has a derived
+    `Debug` that prints a sensitive field: `derivedResultDebug` lists the types that do, and it is empty or
+    clean.  (Data records the caller asked for — `Group`, `Message`, `Welcome` … — are in
+    `derivedRecordDebug` and are outside the property.) -/
+theorem results_redact : ∀ s ∈ derivedResultDebug, s.clean = true := by
+  have h : derivedResultDebug.all Site.clean = true := by decide +kernel
+  simpa [List.all_eq_true] using h
 
-/-- it is false of the current code (`UpdateGroupResult`, `GroupResult`, `JoinedGroupResult`,
-    `NostrGroupConfigData` derive `Debug` over a `GroupId` / nostr group id / image key) -/
-theorem C14_results_witness : ¬ C14_results_full := by
-  intro h
-  have hall : derivedResultDebug.all Site.clean = true := List.all_eq_true.mpr h
-  revert hall; decide +kernel
-
-/-! ### 4. corollary — no modelled execution emits a secret. -/
+/-! ### 4. the property — no modelled execution emits a secret. -/
 
 /-- an emitted item of a modelled execution: a log record, a returned error value (formatted by an
     `errFmt` row) or the Debug/Display of a value with a manual impl -/
 def emitted (r : Record) : Bool :=
   emittedBy tables logSites r || emittedBy tables errorFormats r || emittedBy tables fmtImpls r
 
-/-- hypothesis of the partial theorem: no stored snapshot name that reaches a log site embeds a protected
-    value.  It holds whenever all snapshots were created by mdk itself: those names always parse, so the
-    `ensure_hydrated` site never fires for them (checked on the implementation by the `leak` engine). -/
-def H (r : Record) : Bool := classPubL .snapshotName r.args
-
-theorem cleanExcept_fits (T : Tables) (hT : T.buildersClean = true) (x : Cls) :
-    ∀ (cs : List Cls) (vs : List Val), cs.all (fun c => !c.sensitive || c == x) = true → fitsL T cs vs = true →
-      classPubL x vs = true → allPub (renderL vs) = true
-  | [], [], _, _, _ => by simp [renderL, allPub]
-  | c :: cs, v :: vs, hc, hf, hp => by
-      simp only [fitsL, Bool.and_eq_true] at hf
-      simp only [List.all_cons, Bool.and_eq_true] at hc
-      simp only [classPubL, Bool.and_eq_true] at hp
-      simp only [renderL, allPub_append, Bool.and_eq_true]
-      refine ⟨?_, cleanExcept_fits T hT x cs vs hc.2 hf.2 hp.2⟩
-      by_cases hs : c.sensitive = false
-      · exact render_clean_val T hT c v hs hf.1
-      · have hcx : c = x := by
-          have := hc.1; simp [hs] at this; simpa using this
-        subst hcx
-        -- a sensitive class: only a leaf fits, and the hypothesis says that leaf is public
-        cases v with
-        | leaf c' atoms =>
-          have hf1 := hf.1
-          simp only [fits] at hf1
-          split at hf1
-          · simp at hf1
-          · split at hf1
-            · rename_i h; subst h; simp [Cls.sensitive] at hs
-            · simp only [Bool.and_eq_true, decide_eq_true_eq] at hf1
-              have hp1 := hp.1
-              simp only [Val.classPub, hf1.1, bne_self_eq_false, Bool.false_or] at hp1
-              simpa [Val.render] using hp1
-        | built sid args =>
-          have hf1 := hf.1
-          simp only [fits] at hf1
-          split at hf1
-          · rename_i h; subst h; simp [Cls.sensitive] at hs
-          · split at hf1
-            · rename_i h; subst h; simp [Cls.sensitive] at hs
-            · simp at hf1
-        | wrapped w => simp [Val.render, allPub]
-  | [], _ :: _, _, hf, _ => by simp [fitsL] at hf
-  | _ :: _, [], _, hf, _ => by simp [fitsL] at hf
-
-/-- **C14_partial.**  Under `H`, nothing a modelled execution emits — log record, error value, manual
-    Debug/Display — contains a secret atom. -/
-theorem C14_partial (r : Record) (hem : emitted r = true) (hH : H r = true) : allPub r.render = true := by
+/-- **C14_full.**  Nothing a modelled execution emits — log record at any level, error value, manual
+    Debug/Display of a result or configuration value — contains a secret atom; for all sites and all
+    argument values. -/
+theorem C14_full (r : Record) (hem : emitted r = true) : allPub r.render = true := by
   unfold emitted at hem
   simp only [Bool.or_eq_true] at hem
   rcases hem with (h | h) | h
-  · unfold emittedBy at h
-    split at h
-    · rename_i s hs
-      exact cleanExcept_fits tables builders_clean .snapshotName s.args r.args
-        (by have := sites_clean s (findSite_mem hs); simpa [Site.cleanExcept] using this) h hH
-    · simp at h
+  · exact render_clean tables builders_clean logSites r sites_clean h
   · exact render_clean tables builders_clean errorFormats r errorFormats_clean h
   · exact redaction_sound r h
 
-/-- non-vacuity of the hypotheses: a non-trivial record (the `record_failure` warning with an event id
-    and an error text built from a third-party error) is emitted and satisfies `H` -/
-example : ∃ r : Record, emitted r = true ∧ H r = true ∧ r.args ≠ [] ∧ r.render ≠ [] := by
+/-- non-vacuity: a non-trivial record (the `record_failure` warning: an event id and a sanitized
+    reason) is emitted by the generated tables and renders something -/
+example : ∃ r : Record, emitted r = true ∧ r.args ≠ [] ∧ r.render ≠ [] := by
   refine ⟨⟨(logSites.find? (fun s => s.args == [.eventId, .const])).get!.id,
            [.leaf .eventId [.pub 7], .leaf .const [.pub 1]]⟩, ?_⟩
-  decide
-
-/-- the full execution-level statement (no hypothesis) … -/
-def C14_exec_full : Prop := ∀ r : Record, emitted r = true → allPub r.render = true
-
-/-- … is false of the model of the current code: the hydration warning can carry a group id -/
-theorem C14_exec_witness : ¬ C14_exec_full := by
-  intro h
-  have := h ⟨(logSites.find? (fun s => s.args.contains .snapshotName)).get!.id,
-             [.leaf .snapshotName [.pub 0, .sec .mlsGroupId 1]]⟩ (by decide)
-  revert this
-  decide
+  decide +kernel
 
 end MdkVerif.Props.C14
